@@ -34,7 +34,7 @@ ob("C05.y.gcdlcm.sym", "VerifC05YGcdSym", s_all, s_all, ["C05-y-gcd-lcm-most-neg
 # ---- expt ----
 NB = 16
 ob("C05.y.expt", "VerifC05YExpt", [(b,) for b in range(NB)], [(b,) for b in range(NB)],
-   ["C05-y-expt-bignum-or-ratio-base-float", "C05-y-expt-negative-exponent-float", "C05-y-expt-through-float"],
+   ["C05-y-expt-bignum-or-ratio-base-float", "C05-y-expt-negative-exponent-float", "C05-y-expt-fixnum-negative-exponent-float", "C05-y-expt-through-float"],
    "(expt base e): base from {0, +-1, +-2, +-3, +-10, 2^31, 2^32+1, +-2^64, 1/2, -2/3, 3/2} (case), e from {0 1 2 3 10 18 39 62 63 64 100 -1 -2 -63} (concrete choice): exact integer, exact ratio for negative exponents, (expt 0 0) = 1, (expt 0 negative) a Lisp condition, canonical form, base unchanged; oracle: repeated math/big multiplication of numerator and denominator." + ENUM)
 
 # ---- isqrt ----
@@ -87,7 +87,7 @@ ob("C05.y.incf", "VerifC05YIncf", in_q, in_th, ["C05-bignum-with-ratio-goes-floa
 NF, NE = 15, 16
 cv_th = [(fn, i) for fn in range(4) for i in range(NF)] + [(fn, i) for fn in (4, 5, 6) for i in range(NE)] + [(7, i) for i in (0, 1, 2, 9, 10, 14, 15)]
 cv_q = [c for c in cv_th if (c[0] < 2) or (c[0] in (2, 3) and c[1] in (0, 1, 5, 8)) or (c[0] == 4) or (c[0] in (5, 6) and c[1] in (4, 7, 9, 13)) or (c[0] == 7 and c[1] in (9, 14))]
-ob("C05.y.conv", "VerifC05YConv", cv_q, cv_th, ["C05-y-rational-of-float-noncanonical", "C05-y-rationalize-not-within-float-accuracy"],
+ob("C05.y.conv", "VerifC05YConv", cv_q, cv_th, ["C05-y-rational-of-float-noncanonical", "C05-y-rationalize-not-within-float-accuracy", "C05-y-rationalize-beyond-decimal-loop-scaled"],
    "rational / rationalize of a concrete double-float from {0.5 0.1 1e20 2^53+2 -0.75 2.0 0.0 1e-5 123456789.125 -2^63 1/3 3.5 -1e15 5e-324 1e300} and of the nearest single-float: rational gives the exact value m*2^e of the float (oracle: math.Frexp), both give a canonical rational that converts back (float r / float r 1.0s0) to the same float; (float q), (coerce q 'float), (coerce q 'double-float), (float q 1.0s0) of 16 exactly representable integers and ratios (2^53, 2^53+2, -2^63, 2^64, 10^20, 2^100, 1/2, -3/4, (2^52+1)/2^60, 5/2^70, -(2^40+1)/8, ...) give the float of exactly that value, operand unchanged. Floats are concrete in the engine." + ENUM)
 
 json.dump(obs, open(os.path.join(HERE, "C05.more.json"), "w"), indent=1)
